@@ -68,27 +68,38 @@ theorem Objects_get_map (os : LObjects) (g : ObjId × LObj → ObjId × Obj) (hg
 
 /-! ### sorted table -/
 
-theorem mem_insertSorted (k : Nat) (v : XEntry) (l : XTable) (p : Nat × XEntry) :
+theorem mem_insertSorted (k : Nat) (v : XEntry) (l : XTable) (hk : ∀ q ∈ l, q.1 ≠ k) (p : Nat × XEntry) :
     p ∈ insertSorted k v l ↔ p = (k, v) ∨ p ∈ l := by
   induction l with
   | nil => simp [insertSorted]
   | cons q rest ih =>
     obtain ⟨k', v'⟩ := q
-    simp only [insertSorted]
+    have hne : ¬ k = k' := fun e => hk (k', v') (by simp) e.symm
+    have ih' := ih (fun q hq => hk q (by simp [hq]))
+    simp only [insertSorted, hne, if_false]
     split
     · simp
-    · simp only [List.mem_cons, ih]
+    · simp only [List.mem_cons, ih']
       constructor
       · rintro (h | h | h) <;> simp [h]
       · rintro (h | h | h) <;> simp [h]
 
-theorem mem_sorted (x : XTable) (p : Nat × XEntry) : p ∈ x.sorted ↔ p ∈ x := by
+/-- on a table with one binding per key, sorting keeps exactly the bindings -/
+theorem mem_sorted (x : XTable) (hn : (x.map (·.1)).Nodup) : ∀ p : Nat × XEntry, p ∈ x.sorted ↔ p ∈ x := by
   unfold XTable.sorted
   induction x with
-  | nil => simp
+  | nil => intro p; simp
   | cons q rest ih =>
+    intro p
     obtain ⟨k, v⟩ := q
-    simp only [List.foldr_cons, mem_insertSorted, ih, List.mem_cons]
+    simp only [List.map_cons, List.nodup_cons] at hn
+    have ih' := ih hn.2
+    have hk : ∀ q ∈ List.foldr (fun (x : Nat × XEntry) acc => insertSorted x.1 x.2 acc) [] rest, q.1 ≠ k := by
+      intro q hq e
+      have hq' : q ∈ rest := (ih' q).mp hq
+      exact hn.1 (e ▸ List.mem_map.mpr ⟨q, hq', rfl⟩)
+    simp only [List.foldr_cons]
+    rw [mem_insertSorted k v _ hk, ih' p, List.mem_cons]
 
 theorem XTable_get_of_mem (t : XTable) (hn : (t.map (·.1)).Nodup) (k : Nat) (v : XEntry) (h : (k, v) ∈ t) :
     t.get k = some v := by
@@ -146,10 +157,15 @@ theorem Objects_mem_of_get (objs : Objects) (id : ObjId) (o : Obj) (h : objs.get
     · simp only [Objects.get, hk, if_false] at h
       simp [ih h]
 
-theorem mergeBlocks_nil (os : LObjects) : mergeBlocks os [] = os := by
-  simp [mergeBlocks]
+theorem mergeBlocksX_nil (x : XTable) (os : LObjects) : mergeBlocksX x os [] = os := by
+  simp [mergeBlocksX, sortBlocks, mergeBlocks]
+
+theorem permuteGo_nil (p : List Nat) : permuteGo [] p = [] := by
+  induction p with
+  | nil => rfl
+  | cons i rest ih => simp [permuteGo, ih]
 
 theorem permuteBlocks_nil (p : List Nat) : permuteBlocks [] p = [] := by
-  simp [permuteBlocks, sortBlocks]
+  simp [permuteBlocks, sortBlocks, permuteGo_nil]
 
 end Lopdf.FileRT
